@@ -33,6 +33,10 @@ impl<'a> SddBuilder<'a> for CompressionSddBuilder<'a> {
 
     #[inline]
     fn app_cache_get(&self, and: &SddAnd<'a>) -> Option<SddPtr<'a>> {
+        #[cfg(rsdd_verif)]
+        if crate::verif::buggify(crate::verif::Site::SddAppCacheForget) {
+            return None;
+        }
         // TODO: check if this is right?
         self.app_cache.borrow().get(and).cloned()
     }
@@ -95,6 +99,8 @@ impl<'a> SddBuilder<'a> for CompressionSddBuilder<'a> {
             while j < node.len() {
                 if self.eq(node[i].sub(), node[j].sub()) {
                     // compress j into i and remove j from the node list
+                    #[cfg(rsdd_verif)]
+                    crate::verif::probe(crate::verif::Probe::SddCompressMerge);
                     node[i] = SddAnd::new(self.or(node[i].prime(), node[j].prime()), node[i].sub());
                     node.swap_remove(j);
                 } else {
@@ -108,6 +114,8 @@ impl<'a> SddBuilder<'a> for CompressionSddBuilder<'a> {
     fn canonicalize(&'a self, mut node: Vec<SddAnd<'a>>, table: VTreeIndex) -> SddPtr<'a> {
         // check for base cases before compression
         if let Some(sdd) = self.canonicalize_base_case(&node) {
+            #[cfg(rsdd_verif)]
+            crate::verif::probe(crate::verif::Probe::SddCanonBaseCase);
             return sdd;
         }
 
